@@ -30,6 +30,31 @@ let () = iter_lines (fun line ->
        | "r2g" -> Printf.printf "ok %s\n" (pr (rgb_gray_convert_d p (img3 ()) (nth 3) ptrs))
        | "y2g" -> Printf.printf "ok %s\n" (pr (grayscale_convert_d (img3 ()) (nth 3) ptrs))
        | "g2c" -> Printf.printf "ok %s\n" (pr (gray_rgb_convert amax lay (rowsof 0 w) (nth 1) ptrs))
+       | "c2k" ->
+           let img = cmyk_ycck_convert p (nth 0) ptrs wn in
+           let comp k = List.concat (List.map (List.map (fun (((a, b), c), d) -> match k with 0 -> a | 1 -> b | 2 -> c | _ -> d)) img) in
+           Printf.printf "ok %s\n" (String.concat " | " (List.map (fun k -> pr (comp k)) [0; 1; 2; 3]))
+       | "k2c" ->
+           let zip4 a b c d = List.map2 (fun ((x, y), z) k -> (((x, y), z), k)) (zip3 a b c) d in
+           let img4 = List.map2 (fun ((a, b), c) d -> zip4 a b c d)
+                        (List.map2 (fun (a, b) c -> ((a, b), c)) (List.combine (rowsof 0 w) (rowsof 1 w)) (rowsof 2 w)) (rowsof 3 w) in
+           Printf.printf "ok %s\n" (pr (ycck_cmyk_convert p img4 (nth 4) ptrs))
+       | "y5" | "r5" | "g5" | "y5d" | "r5d" | "g5d" ->
+           (* <bottomup> field = bu | mis<<1 | rows_per_call<<3 | first_scanline<<6 *)
+           let fl = int_of_string (List.nth (words line) 7) in
+           let bu5 = (fl land 1) <> 0 and mis = (fl lsr 1) land 3 and chunk = (fl lsr 3) land 7 and scan0 = (fl lsr 6) land 3 in
+           let chunk = if chunk = 0 then h else chunk in
+           let src = (match op.[0] with 'y' -> 0 | 'r' -> 1 | _ -> 2) in
+           let dith = String.length op = 3 in
+           let nin = if src = 2 then 1 else 3 in
+           let img = if src = 2 then List.map (List.map (fun v -> ((v, Z0), Z0))) (rowsof 0 w) else img3 () in
+           let ptrs5 = rows (z_of_int pitch) (nat_of_int h) bu5 in
+           let rec go r0 buf =
+             if r0 >= h then buf else
+             let n = min chunk (h - r0) in
+             go (r0 + n) (convert565 false (z_of_int src) dith (z_of_int mis) (z_of_int (scan0 + r0)) (z_of_int w)
+                            (take n (drop r0 img)) buf (take n (drop r0 ptrs5))) in
+           Printf.printf "ok %s\n" (pr (go 0 (nth nin)))
        | "m1" | "m2" ->
            let cw = (w + 1) / 2 in
            let f = if op = "m1" then h2v1_rows else h2v2_rows in
